@@ -245,7 +245,7 @@ class Runner:
         elif k == "reset_end":
             if self.reset_task is not None:
                 self.reset_task.cancel()
-        elif k == "reset":
+        elif k in ("reset", "reset_nowait"):
             # the REAL api.reset(): NCPModuleReset request, wait for the disconnect, reconnect (uart.connect stubbed)
             U = self.U
             outer = self
@@ -260,7 +260,7 @@ class Runner:
                     outer.proto = p
                     return p
                 U.connect = fake_connect
-            self.real_reset = loop.create_task(api.reset())
+            self.real_reset = loop.create_task(api.reset(wait_for_reset=(k == "reset")))
         loop.settle()
         return self._collect()
 
